@@ -71,6 +71,45 @@ let run_array toks =
       (match o with Some idx -> add (" I" ^ fmt_list idx) | None -> add " N");
       add (" L" ^ zs (ind_len !i total))
     done
+  (* call histories mixing next ("x") and nth k: nth k is k discarded calls of next and then one more (what the default
+     implementation of Iterator::nth does; the model has no nth of its own) *)
+  | ["indiceshist"; sh; ops] ->
+    let sh = parse_list sh in
+    let total = elements sh in
+    let i = ref ZA.zero in
+    add ("L" ^ zs (ind_len !i total));
+    List.iter (fun op ->
+        let k = if op = "x" then 0 else int_of_string op in
+        let last = ref None in
+        let stop = ref false in
+        for j = 0 to k do
+          if not !stop then begin
+            let (i', o) = ind_next sh !i total in
+            i := i';
+            (match o with None -> (last := None; stop := true) | Some _ -> if j = k then last := o)
+          end
+        done;
+        (match !last with Some idx -> add (" I" ^ fmt_list idx) | None -> add " N");
+        add (" L" ^ zs (ind_len !i total))) (S.split_on_char ',' ops)
+  | ["viewhist"; sh; a; i; ops] ->
+    (match get_axis (ramp (parse_list sh)) (ZA.of_string a) (ZA.of_string i) with
+     | None -> add "None"
+     | Some v ->
+       let s = ref (viter_new v) in
+       add ("L" ^ zs (vlen v !s));
+       List.iter (fun op ->
+           let k = if op = "x" then 0 else int_of_string op in
+           let last = ref None in
+           let stop = ref false in
+           for j = 0 to k do
+             if not !stop then begin
+               let (s', o) = vnext v !s in
+               s := s';
+               (match o with None -> (last := None; stop := true) | Some _ -> if j = k then last := o)
+             end
+           done;
+           (match !last with Some x -> add (" S" ^ zs x) | None -> add " N");
+           add (" L" ^ zs (vlen v !s))) (S.split_on_char ',' ops))
   | ["sum"; sh; a; data] ->
     let x = { adata = parse_list data; ashape = parse_list sh } in
     let s = z_sum_axis x (ZA.of_string a) in
@@ -324,7 +363,7 @@ let run_case line =
   | [] -> ()
   | op :: _ ->
     (match op with
-     | "get" | "getmut" | "getaxis" | "view" | "axisiter" | "indices" | "sum" -> run_array toks
+     | "get" | "getmut" | "getaxis" | "view" | "axisiter" | "indices" | "indiceshist" | "viewhist" | "sum" -> run_array toks
      | "fold" | "marg" | "keep" | "project" | "pmf" | "binom" -> run_spectrum toks
      | "npyw" | "npyr" | "textw" | "read" | "fmt" | "parse" | "detect" -> run_bytes toks
      | "classify" | "sites" | "create" | "smapfile" | "genosm" | "genosv" -> run_create toks
